@@ -94,8 +94,11 @@ def run_hist(seed, n):
                     ev.append(dict(base, ev="reg", all=1 if mode == "all" else 0, den=sorted(den), out=int(out), raises=int(raises), fn=fnum))
                 elif r < 0.4 and regs:
                     k = rnd.randrange(len(regs))
-                    tq.unregister_telegram_received_cb(regs.pop(k))
-                    ev.append(dict(base, ev="unreg", k=k + 1))
+                    try:
+                        tq.unregister_telegram_received_cb(regs.pop(k))
+                        ev.append(dict(base, ev="unreg", k=k + 1))
+                    except Exception as ex_:  # noqa: BLE001 - a registered handle can always be unregistered: recorded, nothing explains it
+                        ev.append(dict(base, ev="unreg_raised:" + type(ex_).__name__, k=k + 1))
                 elif r < 0.48 and regs:
                     # the handle's lists are edited in place (the documented way to change a subscription): this registration only
                     k = rnd.randrange(len(regs))
